@@ -79,6 +79,21 @@ def main():
         print(f"{r['name']:8s} {status:16s} " + "; ".join(f"{p}: {l[0] if l else ''}"[:170] for p, l in r["fired"])
               + (" | " + " | ".join(r["errors"]) if r["errors"] else ""))
     print(f"{caught}/{len(results)} seeded changes reported by at least one check")
+    if "--write-index" in sys.argv:
+        idx_path = os.path.join(SEEDED, "INDEX.json")
+        try:
+            idx = json.load(open(idx_path))
+        except Exception:
+            idx = {}
+        for r in results:
+            if not r["applied"]:
+                continue
+            idx[r["name"]] = {"property": r["property"], "detected_by": sorted(p for p, _ in r["fired"]),
+                              "first_report": {p: (l[0] if l else "") for p, l in r["fired"]}}
+        with open(idx_path, "w") as fh:
+            json.dump(idx, fh, indent=1, sort_keys=True)
+            fh.write("\n")
+        print(f"wrote {idx_path} ({len(idx)} entries)")
 
 
 if __name__ == "__main__":
